@@ -248,7 +248,7 @@ def check(prop, tier, seed, runs=None, workers=None, wall_cap=None, selftest=Tru
     # interpreter under another hash seed must give the same digests
     det = {"checked": 0, "ok": True}
     if selftest and not agg["failures"]:
-        k = min(n_runs, 24 if tier == "quick" else 200)
+        k = min(n_runs, getattr(sim, "SELFTEST_RUNS", 24) if tier == "quick" else getattr(sim, "SELFTEST_RUNS", 24) * 8)
         d1 = digest_range(prop, tier, seed, 0, k)
         d2 = digest_range(prop, tier, seed, 0, k)
         cmd = [sys.executable, os.path.join(env.VERIF_DIR, "simkit", "cli.py"), prop, "--digest", "0", str(k), "--tier", tier, "--seed", str(seed)]
